@@ -264,7 +264,7 @@ def execute_wrapper(mod, w, summaries=None, inputs=None, prefix='x'):
     riin = st.new_region(max(1, w.n_iin) * 8, 'arg', 'iin')
     ins = inputs if inputs is not None else input_terms(w, prefix)
     for i, t in enumerate(ins):
-        st.regions[rin].cells[i * isz] = (isz, w.in_ty, t)
+        st.regions[rin].cells[i * isz] = (10 if w.in_ty == 'f80' else isz, w.in_ty, t)
     for i in range(w.n_iin):
         st.regions[riin].cells[i * 8] = (8, 'i64', tm.arg('i64', 'k%d' % i))
     res = WrapperResult()
